@@ -148,6 +148,10 @@ def fidelity_side(plan, sim):
         else:
             data = nodes.serialize(cfg, plan["ops"], sim, stream_box=box)
     except Exception as e:  # noqa: BLE001
+        if want_version is not None and want_version not in (1, 2):
+            # asked for a protocol version that does not exist: refusing is one way of not writing it
+            sim.count("unsupported_requested_version_refused")
+            return [], None
         return [{"clause": "C13.serialize_raised", "sig": {"exc": type(e).__name__},
                  "msg": f"{type(e).__name__}: {e}"}], None
     stream = box[0]
